@@ -180,6 +180,19 @@ carquet_status_t carquet_reader_row_group_matches(
     const parquet_schema_element_t* elem = &reader->schema->elements[schema_idx];
     carquet_physical_type_t type = elem->has_type ? elem->type : CARQUET_PHYSICAL_BYTE_ARRAY;
 
+    /* A NaN probe is unordered with respect to every value: x == NaN never
+     * holds and x != NaN always does, and the three-way comparators below
+     * would report "equal" for it. Statistics cannot rule anything out. */
+    if (type == CARQUET_PHYSICAL_FLOAT && value_size >= (int32_t)sizeof(float)) {
+        float probe;
+        memcpy(&probe, value, sizeof(probe));
+        if (probe != probe) return CARQUET_OK;
+    } else if (type == CARQUET_PHYSICAL_DOUBLE && value_size >= (int32_t)sizeof(double)) {
+        double probe;
+        memcpy(&probe, value, sizeof(probe));
+        if (probe != probe) return CARQUET_OK;
+    }
+
     compare_fn_t cmp_fn = get_compare_fn(type);
 
     int cmp_min, cmp_max;
